@@ -360,6 +360,14 @@ class Translator:
             if not bp:
                 self.bad(e, "method call on impure receiver")
             key = (bty, f.attr)
+            if key not in self.methods and key in getattr(self, "available", {}) and key not in self.in_progress:
+                # a method of a translated class that is defined later in the fixed emission order: translate it now
+                # (its Definition lands before the caller's); recursion stays unsupported
+                clsname_, node_, fname_ = self.available[key]
+                saved = (self.cur_fn, self._loop_count, self.vartypes, self.fname)
+                self.fname = fname_
+                self.method(clsname_, node_)
+                self.cur_fn, self._loop_count, self.vartypes, self.fname = saved
             if key not in self.methods:
                 self.bad(e, f"call to untranslated method {bty}.{f.attr}")
             fn = self.methods[key]
@@ -774,6 +782,21 @@ class Translator:
     def method(self, clsname, fn, assume=None, suffix=""):
         info = CLASSES[clsname]
         selfty = info["ty"]
+        if not suffix and (selfty, fn.name) in self.methods:
+            return self.methods[(selfty, fn.name)]   # already emitted on demand
+        if not hasattr(self, "in_progress"):
+            self.in_progress = set()
+        if not suffix:
+            self.in_progress.add((selfty, fn.name))
+        try:
+            return self._method(clsname, fn, assume, suffix)
+        finally:
+            if not suffix:
+                self.in_progress.discard((selfty, fn.name))
+
+    def _method(self, clsname, fn, assume=None, suffix=""):
+        info = CLASSES[clsname]
+        selfty = info["ty"]
         env = {"__class__": (clsname, "class")}
         params = []
         args = fn.args
@@ -1016,6 +1039,15 @@ def translate(repo: Path) -> str:
                   "  mkUnionRaw ranges simplified.\n")
     tr.ctor_fn["UnionSpecifier"] = Fn("mk_union", [("ranges", "list range"), ("simplified", "optclause")], "union", True)
 
+    # methods that may be translated on demand when an earlier method calls them
+    tr.in_progress = set()
+    tr.available = {}
+    for name in ("is_any", "allows_lower", "allows_higher", "is_strictly_lower", "is_adjacent_to", "__lt__",
+                 "is_superset", "is_subset", "can_combine"):
+        if name in rm:
+            tr.available[("range", name)] = ("RangeSpecifier", rm[name], str(srcs["range"]))
+    if "_from_ranges" in um:
+        tr.available[("union", "_from_ranges")] = ("UnionSpecifier", um["_from_ranges"], str(srcs["union"]))
     tr.fname = str(srcs["range"])
     for name in ("__invert__", "is_any", "allows_lower", "allows_higher", "is_strictly_lower",
                  "is_adjacent_to", "__lt__", "is_superset", "is_subset", "can_combine", "__and__", "__or__"):
